@@ -12,3 +12,281 @@ Proof.
   unfold ne_op, eq_op. destruct (len s =? len o); cbn [negb]; [|reflexivity].
   destruct (mcmp (buf s) 0 (buf o) 0 (len s)); reflexivity.
 Qed.
+
+(* ------------------------------------------------------------------ *)
+(** * buffers as compositions of [blit] *)
+
+Lemma mmove_blit b d s n : d <= nlen b -> (n = 0 \/ (s + n <= nlen b /\ d + n <= nlen b)) ->
+  mmove b d s n = Ok (blit b d (take n (drop s b))).
+Proof.
+  intros Hd H. rewrite mmove_ok by assumption. destruct (N.eqb_spec n 0); [|reflexivity].
+  subst. rewrite take_0, blit_nil by assumption. reflexivity.
+Qed.
+Lemma mset_blit b d n v : d <= nlen b -> (n = 0 \/ d + n <= nlen b) ->
+  mset b d n v = Ok (blit b d (rep v n)).
+Proof.
+  intros Hd H. rewrite mset_ok by assumption. destruct (N.eqb_spec n 0); [|reflexivity].
+  subst. unfold rep. cbn [N.to_nat repeat]. rewrite blit_nil by assumption. reflexivity.
+Qed.
+Lemma mcpy_blit b d src off n : d <= nlen b -> (n = 0 \/ (off + n <= nlen src /\ d + n <= nlen b)) ->
+  mcpy b d src off n = Ok (blit b d (take n (drop off src))).
+Proof.
+  intros Hd H. rewrite mcpy_ok by assumption. destruct (N.eqb_spec n 0); [|reflexivity].
+  subst. rewrite take_0, blit_nil by assumption. reflexivity.
+Qed.
+
+(** normalisation of lengths *)
+Ltac nl :=
+  repeat first
+    [ rewrite nlen_app | rewrite nlen_take | rewrite nlen_drop | rewrite nlen_rep
+    | rewrite nlen_cons | rewrite nlen_nil | rewrite nlen_carr | rewrite nlen_rev
+    | rewrite nlen_blit by (nl; lia) ].
+
+Ltac len_side := unfold M64 in *; nl; repeat match goal with H : nlen _ = _ |- _ => rewrite H end; lia.
+
+(** pointwise normal form of an element of a composed list *)
+Ltac nn :=
+  repeat first
+    [ rewrite nthN_take | rewrite nthN_app | rewrite nthN_drop | rewrite nthN_rep
+    | rewrite nthN_cons | rewrite nthN_blit by len_side | progress nl ].
+
+Ltac cases :=
+  repeat match goal with
+    | |- context [?a <? ?b] => destruct (N.ltb_spec a b); try lia
+    | |- context [?a <=? ?b] => destruct (N.leb_spec a b); try lia
+    | |- context [?a =? ?b] => destruct (N.eqb_spec a b); try lia
+    end.
+
+Ltac leaf :=
+  try reflexivity; try lia;
+  try (f_equal; lia);
+  try (rewrite nthN_overflow by len_side; reflexivity);
+  try (symmetry; rewrite nthN_overflow by len_side; reflexivity).
+
+Ltac pw :=
+  apply list_ext;
+  [ nl; repeat match goal with H : nlen _ = _ |- _ => rewrite H end; try lia
+  | let i := fresh "i" in let Hi := fresh "Hi" in
+    intros i Hi; nn; repeat match goal with H : nlen _ = _ |- _ => rewrite H in * end; cases; leaf ].
+
+Section Refine.
+Variable L : N.
+Hypothesis HL : CapOk L.
+
+Lemma fin_blit b l : nlen b = L + 1 -> l <= L ->
+  fin L b l = Ok {| buf := blit b l [0]; len := l |}.
+Proof.
+  intros Hb Hl. destruct HL as [HL1 HL2]. unfold fin. rewrite trunc_id by assumption.
+  rewrite wr_blit by lia. reflexivity.
+Qed.
+
+Lemma abs_len s : Inv L s -> nlen (abs s) = len s.
+Proof. intros (Hb & Hl & Hz). unfold abs. rewrite nlen_take. lia. Qed.
+
+(** erase *)
+Lemma erase_refines s index count :
+  Inv L s -> index < M64 -> count < M64 -> index <= len s ->
+  exists s', erase L s index count = Ok s' /\ abs s' = cut L (std_erase (abs s) index count).
+Proof.
+  intros (Hb & Hl & Hz) Hi Hc Hd. destruct HL as [HL1 HL2]. unfold erase. cbv zeta.
+  destruct (N.ltb_spec (len s) index); [lia|].
+  rewrite !sub64_small by (unfold M64 in *; lia).
+  destruct (N.leb_spec (len s - index) count).
+  - rewrite wr_blit by lia. cbn [bind]. rewrite trunc_id by (assumption || lia).
+    eexists; split; [reflexivity|]. unfold abs, cut, std_erase. cbn [buf len]. pw.
+  - s64. rewrite mmove_blit by len_side. cbn [bind].
+    rewrite fin_blit by len_side.
+    eexists; split; [reflexivity|]. unfold abs, cut, std_erase. cbn [buf len]. pw.
+Qed.
+
+Lemma push_back_refines s ch :
+  Inv L s -> exists s', push_back L s ch = Ok s' /\ abs s' = cut L (abs s ++ [ch]).
+Proof.
+  intros (Hb & Hl & Hz). destruct HL as [HL1 HL2]. unfold push_back. cbv zeta.
+  destruct (N.ltb_spec (len s) L).
+  - rewrite wr_blit by lia. cbn [bind]. s64. rewrite fin_blit by len_side.
+    eexists; split; [reflexivity|]. unfold abs, cut. cbn [buf len]. pw.
+  - eexists; split; [reflexivity|]. unfold abs, cut. pw.
+Qed.
+
+Lemma pop_back_refines s :
+  Inv L s -> 0 < len s -> exists s', pop_back L s = Ok s' /\ abs s' = take (len s - 1) (abs s).
+Proof.
+  intros (Hb & Hl & Hz) Hp. destruct HL as [HL1 HL2]. unfold pop_back. cbv zeta.
+  destruct (N.ltb_spec 0 (len s)); [|lia]. s64. rewrite fin_blit by len_side.
+  eexists; split; [reflexivity|]. unfold abs. cbn [buf len]. pw.
+Qed.
+
+Lemma clear_refines s : Inv L s -> exists s', clear L s = Ok s' /\ abs s' = [].
+Proof.
+  intros (Hb & Hl & Hz). destruct HL as [HL1 HL2]. unfold clear.
+  rewrite wr_blit by lia. cbn [bind]. rewrite trunc_id by (assumption || lia).
+  eexists; split; [reflexivity|]. unfold abs. cbn [buf len]. apply take_0.
+Qed.
+
+Lemma assign_arr_refines s arr n :
+  nlen (buf s) = L + 1 -> n <= nlen arr ->
+  exists s', assign_arr L s arr n = Ok s' /\ abs s' = cut L (take n arr).
+Proof.
+  intros Hb Ha. destruct HL as [HL1 HL2]. unfold assign_arr, internal_copy. cbv zeta.
+  rewrite trunc_id by (assumption || lia).
+  destruct (N.ltb_spec 0 (N.min L n)).
+  - rewrite mcpy_blit by len_side. cbn [bind]. rewrite wr_blit by len_side. cbn [bind].
+    eexists; split; [reflexivity|]. unfold abs, cut. cbn [buf len]. pw.
+  - cbn [bind]. rewrite wr_blit by len_side. cbn [bind].
+    eexists; split; [reflexivity|]. unfold abs, cut. cbn [buf len].
+    replace (N.min L n) with 0 by lia. rewrite take_0. assert (n = 0) by lia. subst.
+    rewrite !take_0. reflexivity.
+Qed.
+
+Lemma append_impl_refines s arr pos count :
+  Inv L s -> pos < M64 -> count < M64 -> pos + count <= nlen arr ->
+  exists s', append_impl L s arr pos count = Ok s' /\
+             abs s' = cut L (abs s ++ take count (drop pos arr)).
+Proof.
+  intros (Hb & Hl & Hz) Hp Hc Ha. destruct HL as [HL1 HL2]. unfold append_impl. cbv zeta.
+  destruct (N.ltb_spec 0 count).
+  - s64. rewrite mcpy_blit by len_side. cbn [bind]. rewrite fin_blit by len_side.
+    eexists; split; [reflexivity|]. unfold abs, cut. cbn [buf len]. pw.
+  - eexists; split; [reflexivity|]. unfold abs, cut. assert (count = 0) by lia. subst.
+    rewrite take_0, app_nil_r. pw.
+Qed.
+
+Lemma insert_nc_refines s index count ch :
+  Inv L s -> index <= len s -> count < M64 ->
+  exists s', insert_nc L s index count ch = Ok s' /\
+             abs s' = cut L (std_insert (abs s) index (rep ch count)).
+Proof.
+  intros (Hb & Hl & Hz) Hi Hc. destruct HL as [HL1 HL2]. unfold insert_nc. cbv zeta.
+  destruct (N.ltb_spec index (len s)).
+  - s64. destruct (N.leb_spec count (L - len s)).
+    + s64. rewrite mmove_blit by len_side. cbn [bind]. rewrite mset_blit by len_side. cbn [bind].
+      rewrite fin_blit by len_side.
+      eexists; split; [reflexivity|]. unfold abs, cut, std_insert. cbn [buf len]. pw.
+    + destruct (N.leb_spec count (L - index)).
+      * s64. rewrite mmove_blit by len_side. cbn [bind]. rewrite mset_blit by len_side. cbn [bind].
+        rewrite fin_blit by len_side.
+        eexists; split; [reflexivity|]. unfold abs, cut, std_insert. cbn [buf len]. pw.
+      * rewrite mset_blit by len_side. cbn [bind]. rewrite fin_blit by len_side.
+        eexists; split; [reflexivity|]. unfold abs, cut, std_insert. cbn [buf len]. pw.
+  - s64. assert (index = len s) by lia. subst index.
+    destruct (N.ltb_spec (L - len s) count).
+    + rewrite mset_blit by len_side. cbn [bind]. s64. rewrite fin_blit by len_side.
+      eexists; split; [reflexivity|]. unfold abs, cut, std_insert. cbn [buf len]. pw.
+    + rewrite mset_blit by len_side. cbn [bind]. s64. rewrite fin_blit by len_side.
+      eexists; split; [reflexivity|]. unfold abs, cut, std_insert. cbn [buf len]. pw.
+Qed.
+
+Lemma insert_pc_refines s index arr count :
+  Inv L s -> index <= len s -> count < M64 -> count <= nlen arr ->
+  exists s', insert_pc L s index arr count = Ok s' /\
+             abs s' = cut L (std_insert (abs s) index (take count arr)).
+Proof.
+  intros (Hb & Hl & Hz) Hi Hc Ha. destruct HL as [HL1 HL2]. unfold insert_pc. cbv zeta.
+  destruct (N.ltb_spec index (len s)).
+  - s64. destruct (N.leb_spec count (L - len s)).
+    + s64. rewrite mmove_blit by len_side. cbn [bind]. rewrite mcpy_blit by len_side. cbn [bind].
+      rewrite fin_blit by len_side.
+      eexists; split; [reflexivity|]. unfold abs, cut, std_insert. cbn [buf len]. pw.
+    + destruct (N.leb_spec count (L - index)).
+      * s64. rewrite mmove_blit by len_side. cbn [bind]. rewrite mcpy_blit by len_side. cbn [bind].
+        rewrite fin_blit by len_side.
+        eexists; split; [reflexivity|]. unfold abs, cut, std_insert. cbn [buf len]. pw.
+      * rewrite mcpy_blit by len_side. cbn [bind]. rewrite fin_blit by len_side.
+        eexists; split; [reflexivity|]. unfold abs, cut, std_insert. cbn [buf len]. pw.
+  - s64. assert (index = len s) by lia. subst index.
+    destruct (N.ltb_spec (L - len s) count).
+    + rewrite mcpy_blit by len_side. cbn [bind]. s64. rewrite fin_blit by len_side.
+      eexists; split; [reflexivity|]. unfold abs, cut, std_insert. cbn [buf len]. pw.
+    + rewrite mcpy_blit by len_side. cbn [bind]. s64. rewrite fin_blit by len_side.
+      eexists; split; [reflexivity|]. unfold abs, cut, std_insert. cbn [buf len]. pw.
+Qed.
+
+Lemma sprintf_refines s text :
+  Inv L s -> exists s', sprintf_ L s text = Ok s' /\ abs s' = cut L (take (cstrlen text) text).
+Proof.
+  intros (Hb & Hl & Hz). destruct HL as [HL1 HL2]. unfold sprintf_. cbv zeta.
+  pose proof (cstrlen_le text) as Hc.
+  rewrite mcpy_blit by (change (nlen [0]) with 1; len_side). cbn [bind].
+  rewrite fin_blit by (change (nlen [0]) with 1; len_side).
+  eexists; split; [reflexivity|]. unfold abs, cut. cbn [buf len].
+  apply list_ext.
+  - change (nlen [0]) with 1. nl. rewrite Hb. lia.
+  - intros i Hi. revert Hi. change (nlen [0]) with 1. nl. rewrite Hb. intros Hi.
+    rewrite (N.min_comm L). nn. change (nlen [0]) with 1 in *.
+    repeat match goal with H : nlen _ = _ |- _ => rewrite H in * end. cases; leaf.
+Qed.
+
+Lemma replace_impl_refines s pos1 count1 arr pos2 count2 :
+  Inv L s -> pos1 <= len s -> count1 < M64 -> pos2 < M64 -> count2 < M64 ->
+  pos2 + count2 <= nlen arr ->
+  exists s', replace_impl L s pos1 count1 arr pos2 count2 = Ok s' /\
+             abs s' = cut L (std_replace (abs s) pos1 count1 (take count2 (drop pos2 arr))).
+Proof.
+  intros (Hb & Hl & Hz) H1 H2 H3 H4 Ha. destruct HL as [HL1 HL2]. unfold replace_impl. cbv zeta.
+  destruct (N.ltb_spec (len s) pos1); [lia|]. s64.
+  destruct (N.ltb_spec (len s - pos1) count1) as [Hc1|Hc1];
+  destruct (N.ltb_spec (L - pos1) count2) as [Hc2|Hc2].
+  - destruct (N.eqb_spec (len s - pos1) (L - pos1)) as [E|E]; cbn [bind].
+    + rewrite mcpy_blit by len_side. cbn [bind buf len].
+      eexists; split; [reflexivity|]. unfold abs, cut, std_replace. cbn [buf len]. pw.
+    + s64. destruct (N.ltb_spec (L - pos1 - (L - pos1)) (len s - pos1 - (len s - pos1))); [lia|].
+      rewrite mmove_blit by len_side. cbn [bind]. s64. rewrite fin_blit by len_side. cbn [bind buf len].
+      rewrite mcpy_blit by len_side. cbn [bind].
+      eexists; split; [reflexivity|]. unfold abs, cut, std_replace. cbn [buf len]. pw.
+  - destruct (N.eqb_spec (len s - pos1) count2) as [E|E]; cbn [bind].
+    + rewrite mcpy_blit by len_side. cbn [bind buf len].
+      eexists; split; [reflexivity|]. unfold abs, cut, std_replace. cbn [buf len]. pw.
+    + s64. destruct (N.ltb_spec (L - pos1 - count2) (len s - pos1 - (len s - pos1))); [lia|].
+      rewrite mmove_blit by len_side. cbn [bind]. s64. rewrite fin_blit by len_side. cbn [bind buf len].
+      rewrite mcpy_blit by len_side. cbn [bind].
+      eexists; split; [reflexivity|]. unfold abs, cut, std_replace. cbn [buf len]. pw.
+  - destruct (N.eqb_spec count1 (L - pos1)) as [E|E]; cbn [bind].
+    + rewrite mcpy_blit by len_side. cbn [bind buf len].
+      eexists; split; [reflexivity|]. unfold abs, cut, std_replace. cbn [buf len]. pw.
+    + s64. destruct (N.ltb_spec (L - pos1 - (L - pos1)) (len s - pos1 - count1)).
+      * rewrite mmove_blit by len_side. cbn [bind]. s64. rewrite fin_blit by len_side. cbn [bind buf len].
+        rewrite mcpy_blit by len_side. cbn [bind].
+        eexists; split; [reflexivity|]. unfold abs, cut, std_replace. cbn [buf len]. pw.
+      * rewrite mmove_blit by len_side. cbn [bind]. s64. rewrite fin_blit by len_side. cbn [bind buf len].
+        rewrite mcpy_blit by len_side. cbn [bind].
+        eexists; split; [reflexivity|]. unfold abs, cut, std_replace. cbn [buf len]. pw.
+  - destruct (N.eqb_spec count1 count2) as [E|E]; cbn [bind].
+    + rewrite mcpy_blit by len_side. cbn [bind buf len].
+      eexists; split; [reflexivity|]. unfold abs, cut, std_replace. cbn [buf len]. pw.
+    + s64. destruct (N.ltb_spec (L - pos1 - count2) (len s - pos1 - count1)).
+      * rewrite mmove_blit by len_side. cbn [bind]. s64. rewrite fin_blit by len_side. cbn [bind buf len].
+        rewrite mcpy_blit by len_side. cbn [bind].
+        eexists; split; [reflexivity|]. unfold abs, cut, std_replace. cbn [buf len]. pw.
+      * rewrite mmove_blit by len_side. cbn [bind]. s64. rewrite fin_blit by len_side. cbn [bind buf len].
+        rewrite mcpy_blit by len_side. cbn [bind].
+        eexists; split; [reflexivity|]. unfold abs, cut, std_replace. cbn [buf len]. pw.
+Qed.
+
+Lemma swap_refines s o :
+  Inv L s -> Inv L o ->
+  exists s' o', swap L s o = Ok (s', o') /\ abs s' = abs o /\ abs o' = abs s.
+Proof.
+  intros (Hb & Hl & Hz) (Hbo & Hlo & Hzo). destruct HL as [HL1 HL2]. unfold swap. cbv zeta.
+  destruct (N.eqb_spec (len s) 0) as [E0|E0].
+  - destruct (N.ltb_spec 0 (len o)).
+    + s64. rewrite mcpy_blit by len_side. cbn [bind]. rewrite wr_blit by len_side. cbn [bind].
+      rewrite !trunc_id by (assumption || lia).
+      eexists _, _; split; [reflexivity|]. unfold abs. cbn [buf len]. rewrite E0. split; [pw|].
+      rewrite !take_0. reflexivity.
+    + eexists _, _; split; [reflexivity|]. unfold abs. rewrite E0. replace (len o) with 0 by lia.
+      rewrite !take_0. split; reflexivity.
+  - destruct (N.eqb_spec (len o) 0) as [Eo|Eo].
+    + s64. rewrite mcpy_blit by len_side. cbn [bind]. rewrite wr_blit by len_side. cbn [bind].
+      rewrite !trunc_id by (assumption || lia).
+      eexists _, _; split; [reflexivity|]. unfold abs. cbn [buf len]. rewrite Eo. split; [|pw].
+      rewrite !take_0. reflexivity.
+    + s64. assert (Hr : nlen (rep 0 (L + 1)) = L + 1) by apply nlen_rep.
+      rewrite (mcpy_blit (rep 0 (L + 1))) by len_side. cbn [bind].
+      rewrite (mcpy_blit (buf s)) by len_side. cbn [bind].
+      rewrite (mcpy_blit (buf o)) by len_side. cbn [bind].
+      rewrite !trunc_id by (assumption || lia).
+      eexists _, _; split; [reflexivity|]. unfold abs. cbn [buf len]. split; pw.
+Qed.
+
+End Refine.
